@@ -360,6 +360,7 @@ template <class T> struct StableSum;
 template <> struct StableSum<double>
 {
    double sum; double c;
+   StableSum() { sum = 0; c = 0; }                 /* as the real default constructor: sum(0), c(0) */
    StableSum(double init) { sum = init; c = 0; }
    void operator+=(double input)
    {
